@@ -153,6 +153,14 @@ func leakOp(r *relayInst, base *int, fs []string) string {
 			}
 			conns = append(conns, c)
 		}
+		// every connection is fully joined before its end cause is applied (an admission still in progress when a
+		// deny arrives is the race recorded as K2 under C07; it is not what this mode measures)
+		for i := 0; i < 5000; i++ {
+			if m, _, _ := r.footprint(); m >= n {
+				break
+			}
+			time.Sleep(time.Millisecond)
+		}
 		serverClosed := 0
 		switch cause {
 		case "clientclose":
